@@ -42,11 +42,47 @@ class Engine:
         self.reg.loop_index_hook = lambda ip, i: seqtheory.add_index(ip, i, loop=True)
         self.reg.index_used_hook = seqtheory.index_used
         self.reg.all_hook = seqtheory.all_hook
+        self.reg.minmax_hook = seqtheory.minmax_hook
         self.reg.any_hook = seqtheory.any_hook
         self.reg.scatter_assign_hook = seqtheory.scatter_assign_hook
         self.reg.array_equal_hook = seqtheory.array_equal_hook
         self.reg.keyed_map_hook = lambda ip, S, kf, vf, desc: seqtheory.keyed_map(ip, S, kf, vf, None, desc, require_distinct=False)
         self.reg.define_array_hook = lambda ip, arr, n, elem: seqtheory.define_array(ip, arr, n, elem, "code")
+
+    def anchor_coverage(self, prop: str) -> dict:
+        """Functions of the property's anchor files that no check of this family reaches: not under a contract of their own,
+        not covered by a virtual contract, not unfolded into their callers (inline marks, constructors, dunders, properties)
+        and not nested inside a function that is under contract."""
+        import json
+        root = os.path.dirname(os.path.dirname(os.path.abspath(__file__)))
+        files: list[str] = []
+        try:
+            for line in open(os.path.join(root, "properties.jsonl")):
+                d = json.loads(line)
+                if d.get("id") == prop:
+                    files = list(d.get("anchors", {}).get("files", []))
+        except OSError:
+            return {}
+        mods = set()
+        for f in files:
+            rel = f[len("src/"):] if f.startswith("src/") else f
+            m = rel[:-3].replace("/", ".") if rel.endswith(".py") else rel.replace("/", ".")
+            mods.add(m[: -len(".__init__")] if m.endswith(".__init__") else m)
+        contracted = set(self.reg.contracts)
+        out = []
+        for key, fi in sorted(self.src.funcs.items()):
+            if fi.module not in mods or key in contracted or self.reg.may_unfold(self.src, fi):
+                continue
+            parts = fi.qualname.split(".")
+            if any(f"{fi.module}:{'.'.join(parts[:i])}" in contracted for i in range(1, len(parts))):
+                continue            # closure of a function under contract: verified with it
+            if fi.cls and self.reg.virtual_for_method(self.src, fi.cls, fi.name) is not None:
+                continue
+            if len(parts) > 1 and f"{fi.module}:{'.'.join(parts[:-1])}" in self.src.funcs:
+                # nested function of a function that is itself not under contract: reported once, through its parent
+                continue
+            out.append(key)
+        return {"not_under_contract": out}
 
     def schema_factory(self):
         if not hasattr(self, "_schema"):
